@@ -130,7 +130,7 @@ impl<'a> Parser<'a> {
 
         // [ IN DATABASE _`database_name`_ ]
         let in_database = if self.parse_keywords(&[Keyword::IN, Keyword::DATABASE]) {
-            self.parse_object_name(false).ok()
+            Some(self.parse_object_name(false)?)
         } else {
             None
         };
